@@ -132,7 +132,7 @@ class OptimResults(object):
         # Note: np.array(mylist, dtype=float) automatically converts None to NaN
         x = np.array(soln_dict['x'], dtype=float) if soln_dict['x'] is not None else None
         resid = np.array(soln_dict['resid'], dtype=float) if soln_dict['resid'] is not None else None
-        obj = soln_dict['obj']
+        obj = soln_dict['obj'] if soln_dict['obj'] is not None else np.nan  # to_dict() may have replaced NaN with None
         jacobian = np.array(soln_dict['jacobian'], dtype=float) if soln_dict['jacobian'] is not None else None
         nf = soln_dict['nf']
         nx = soln_dict['nx']
@@ -146,6 +146,7 @@ class OptimResults(object):
         
         if soln_dict['diagnostic_info'] is not None:
             soln.diagnostic_info = pd.DataFrame.from_dict(soln_dict['diagnostic_info'])
+            soln.diagnostic_info.index = soln.diagnostic_info.index.astype(int)  # JSON object keys are strings; restore integer row labels
         return soln
 
 
